@@ -10,6 +10,6 @@ package rtpav1
 // packet". Closing a packet into which nothing of the OBU fitted must not set them.
 //@ func (e *Encoder) Encode
 //@   requires e.SSRC != nil
-//@   assert[C03]@call:finalizeCurPacket#1 (fragmented ==> len(obu) < obuLen) && (!fragmented ==> len(obu) == obuLen)
-//@   assert[C03]@call:createNewPacket#2 (fragmented ==> len(obu) < obuLen) && (!fragmented ==> len(obu) == obuLen)
+//@   assert[C03]@call:finalizeCurPacket#1 (arg(0) ==> len(obu) < obuLen) && (!arg(0) ==> len(obu) == obuLen)
+//@   assert[C03]@call:createNewPacket#2 (arg(0) ==> len(obu) < obuLen) && (!arg(0) ==> len(obu) == obuLen)
 //@   modifies *
